@@ -4,35 +4,9 @@ All are arithmetic right-hand sides inside `calc` and the per-pair kernels; `cdi
 gives `/` between integer expressions the C meaning (Cython `cdivision(True)` on typed ints),
 which is what makes `weights[idx] += 1 / 2` the integer 0.
 
-Work-around for a shared-file limitation (see notes/C15.md, wishes): the translator's
-`pseudo_name` only understands `x[<int literal>]`; the kernel text indexes with names
-(`desc[i]`, `values[idx]`).  This module extends `pseudo_name` (x[name] -> x_name) in the
-running translator process when it is loaded; nothing else is changed.
+The kernel text indexes with names (`desc[i]`, `values[idx]`); the translator maps
+`x[name]` to the pseudo-name `x_name` natively.
 """
-import ast
-import sys
-
-
-def _extend_translator():
-    for modname in ('py2lean', '__main__'):
-        mod = sys.modules.get(modname)
-        if mod is None or not hasattr(mod, 'pseudo_name') or not hasattr(mod, 'Tr'):
-            continue
-        if getattr(mod.pseudo_name, '_c15_extended', False):
-            continue
-        orig = mod.pseudo_name
-
-        def pseudo_name(node, _orig=orig):
-            if isinstance(node, ast.Subscript) and isinstance(node.slice, ast.Name):
-                base = pseudo_name(node.value)
-                return None if base is None else f'{base}_{node.slice.id}'
-            return _orig(node)
-
-        pseudo_name._c15_extended = True
-        mod.pseudo_name = pseudo_name
-
-
-_extend_translator()
 
 PYX = 'cengine/similarity.pyx'
 _IDX = {'n': 'Nat', 'desc_i': 'Nat', 'desc_j': 'Nat'}
@@ -68,6 +42,15 @@ LEAVES = [
     dict(name='finalDiv', file=PYX, func='calc', kind='assign', target='values[idx]', nth=5,
          count=7, params={'values_idx': 'A', 'weights_idx': 'A'}, ret='A', cdiv=True,
          augmented=False),
+    # Poisson preprocessing constants of `calc`
+    dict(name='priorLambdaL', file=PYX, func='calc', kind='assign', target='float_t prior_lambda_l',
+         params={'prior_lambda': 'A', 'prior_weight': 'A'}, ret='A', cdiv=True, count=1),
+    dict(name='priorWeightL', file=PYX, func='calc', kind='assign', target='float_t prior_weight_l',
+         params={'prior_weight': 'A'}, ret='A', cdiv=True, count=1),
+    # Python layer: distance from the three similarities
+    dict(name='combine', file='rdm/calc_unbalanced.py', func='calc_rdm_unbalanced', kind='assign',
+         target='rdm', nth=4, count=6,
+         params={'self_sim_row_idx': 'A', 'self_sim_col_idx': 'A', 'rdm': 'A'}, ret='A'),
     # kernels: final normalisations
     dict(name='poissonHalf', file=PYX, func='poisson_cv', kind='assign', target='sim', nth=1,
          count=2, params={'sim': 'A'}, ret='A', cdiv=True, augmented=False),
